@@ -575,4 +575,368 @@ theorem readValue_ool_obs {f : File} {unc : Codec} (hc : CodecOK unc) (x : XR) (
   · simp only [ha, ne_eq, not_false_eq_true, if_true] at hok
     cases hok
 
+/-! ### the loop fuel of the listing and path models suffices -/
+
+theorem exec_bind {α β : Type} (fix : Bool) (f : File) (unc : Codec) (p : Prog α) (g : α → Prog β) :
+    ∀ S : Readers, exec fix f unc (p.bind g) S =
+      match exec fix f unc p S with
+      | (.ok a, S') => exec fix f unc (g a) S'
+      | (.error e, S') => (.error e, S') := by
+  induction p with
+  | ret a => intro S; rfl
+  | fail e => intro S; rfl
+  | seek k b o c ih =>
+    intro S
+    simp only [Prog.bind, exec]
+    split
+    · rfl
+    · exact ih _
+  | read k n c ih =>
+    intro S
+    simp only [Prog.bind, exec]
+    split
+    · rfl
+    · exact ih _ _
+  | pos k c ih =>
+    intro S
+    simp only [Prog.bind, exec]
+    exact ih _ _
+
+/-- every value the program can return satisfies `P` -/
+def Leaves {α : Type} (P : α → Prop) : Prog α → Prop
+  | .ret a => P a
+  | .fail _ => True
+  | .seek _ _ _ c => Leaves P c
+  | .read _ _ c => ∀ bs, Leaves P (c bs)
+  | .pos _ c => ∀ q, Leaves P (c q)
+
+theorem exec_leaves {α : Type} (fix : Bool) (f : File) (unc : Codec) (P : α → Prop) (p : Prog α) :
+    ∀ (S : Readers) (a : α), Leaves P p → (exec fix f unc p S).1 = .ok a → P a := by
+  induction p with
+  | ret a0 => intro S a h he; simp only [exec] at he; cases he; exact h
+  | fail e => intro S a _ he; simp only [exec] at he; cases he
+  | seek k b o c ih =>
+    intro S a h he
+    simp only [exec] at he
+    split at he
+    · cases he
+    · exact ih _ _ h he
+  | read k n c ih =>
+    intro S a h he
+    simp only [exec] at he
+    split at he
+    · cases he
+    · exact ih _ _ _ (h _) he
+  | pos k c ih =>
+    intro S a h he
+    simp only [exec] at he
+    exact ih _ _ _ (h _) he
+
+/-- the program never fails with `e` of its own accord -/
+def NoFail {α : Type} (e : Status) : Prog α → Prop
+  | .ret _ => True
+  | .fail e' => e' ≠ e
+  | .seek _ _ _ c => NoFail e c
+  | .read _ _ c => ∀ bs, NoFail e (c bs)
+  | .pos _ c => ∀ q, NoFail e (c q)
+
+theorem set_coherent {f : File} {unc : Codec} {S : Readers} (h : ∀ k, Coherent f unc (S k)) (k : Nat) {m : MR}
+    (hm : Coherent f unc m) : ∀ j, Coherent f unc ((S.set k m) j) := by
+  intro j
+  unfold Readers.set
+  split
+  · exact hm
+  · exact h j
+
+/-- on coherent readers a program stays on coherent readers and reports a model-only status (≥ 1000) only if it
+fails with it of its own accord -/
+theorem exec_coherent_err {α : Type} {f : File} {unc : Codec} (hc : CodecOK unc) (p : Prog α) :
+    ∀ (S : Readers), (∀ k, Coherent f unc (S k)) →
+      (∀ k, Coherent f unc ((exec true f unc p S).2 k)) ∧
+      ∀ e, crashSt ≤ e → NoFail e p → (exec true f unc p S).1 ≠ .error e := by
+  induction p with
+  | ret a => intro S hS; exact ⟨hS, fun e _ _ h => by simp only [exec] at h; cases h⟩
+  | fail e0 =>
+    intro S hS
+    refine ⟨hS, fun e _ hn h => ?_⟩
+    simp only [exec] at h
+    cases h
+    exact hn rfl
+  | seek k b o c ih =>
+    intro S hS
+    have hk := seek_coherent hc (hS k) b o
+    have hlt := seek_status_lt (fix := true) (f := f) hc (S k) b o
+    simp only [exec]
+    by_cases h0 : (MetaReader.seek true f unc (S k) b o).1 = 0
+    · simp only [h0, ne_eq, not_true_eq_false, if_false]
+      exact ih _ (set_coherent hS k hk)
+    · simp only [h0, ne_eq, not_false_eq_true, if_true]
+      refine ⟨set_coherent hS k hk, fun e he _ h => ?_⟩
+      have : (MetaReader.seek true f unc (S k) b o).1 = e := by injection h
+      rw [this] at hlt
+      exact Nat.not_lt.mpr he hlt
+  | read k n c ih =>
+    intro S hS
+    have hk := read_coherent hc (hS k) n
+    have hlt : (MetaReader.read true f unc (S k) n).1 < crashSt := readLoop_no_crash hc n _ n [] (hS k) (Nat.le_refl n)
+    simp only [exec]
+    by_cases h0 : (MetaReader.read true f unc (S k) n).1 = 0
+    · simp only [h0, ne_eq, not_true_eq_false, if_false]
+      obtain ⟨a, b⟩ := ih _ _ (set_coherent hS k hk)
+      exact ⟨a, fun e he hn => b e he (hn _)⟩
+    · simp only [h0, ne_eq, not_false_eq_true, if_true]
+      refine ⟨set_coherent hS k hk, fun e he _ h => ?_⟩
+      have : (MetaReader.read true f unc (S k) n).1 = e := by injection h
+      rw [this] at hlt
+      exact Nat.not_lt.mpr he hlt
+  | pos k c ih =>
+    intro S hS
+    simp only [exec]
+    obtain ⟨a, b⟩ := ih _ S hS
+    exact ⟨a, fun e he hn => b e he (hn _)⟩
+
+theorem readdirEntP_leaves (k : Nat) (it : Rd) (bound : Nat) (hb : it.size ≤ bound) :
+    Leaves (fun r : RdRes × Rd => match r.1 with | .eof => True | .ent _ _ => r.2.size < bound) (readdirEntP k it) := by
+  unfold readdirEntP
+  split
+  · trivial
+  · intro e name q
+    simp only [Leaves]
+    have : sizeofDirNode = 8 := rfl
+    split <;> omega
+
+theorem readdirP_leaves (k : Nat) (it : Rd) :
+    Leaves (fun r : RdRes × Rd => match r.1 with | .eof => True | .ent _ _ => r.2.size < it.size) (readdirP k it) := by
+  unfold readdirP
+  split
+  · split
+    · trivial
+    · intro h
+      simp only
+      split
+      · trivial
+      · intro q
+        apply readdirEntP_leaves
+        simp only
+        omega
+  · exact readdirEntP_leaves k it it.size (Nat.le_refl _)
+
+theorem readdirEntP_nofail (k : Nat) (it : Rd) : NoFail loopFuelSt (readdirEntP k it) := by
+  unfold readdirEntP
+  split
+  · trivial
+  · intro e name q; trivial
+
+theorem readdirP_nofail (k : Nat) (it : Rd) : NoFail loopFuelSt (readdirP k it) := by
+  unfold readdirP
+  split
+  · split
+    · trivial
+    · intro h
+      simp only
+      split
+      · simp only [NoFail]; decide
+      · intro q; exact readdirEntP_nofail _ _
+  · exact readdirEntP_nofail _ _
+
+theorem readIndexP_nofail {α : Type} (e : Status) (k : Nat) :
+    ∀ (n : Nat) (acc : Bytes) (cont : Bytes → Prog α), (∀ bs, NoFail e (cont bs)) → NoFail e (readIndexP k n acc cont) := by
+  intro n
+  induction n with
+  | zero => intro acc cont h; exact h acc
+  | succ n ih =>
+    intro acc cont h
+    unfold readIndexP
+    intro ent name
+    exact ih _ cont h
+
+/-- `read_inode` fails of its own accord only with `SQFS_ERROR_UNSUPPORTED` or `SQFS_ERROR_OVERFLOW` -/
+theorem readInodeP_nofail (k tblStart blockSize b o : Nat) (e : Status) (h1 : errUnsupported ≠ e) (h2 : errOverflow ≠ e) :
+    NoFail e (readInodeP k tblStart blockSize b o) := by
+  unfold readInodeP
+  intro h
+  simp only
+  split
+  · exact h1
+  · split
+    · intro d ex; trivial
+    · split
+      · intro d tgt; trivial
+      · split
+        · intro d
+          simp only
+          split
+          · exact h2
+          · intro ex; trivial
+        · split
+          · intro d tgt x; trivial
+          · split
+            · intro d
+              simp only
+              split
+              · trivial
+              · exact readIndexP_nofail e k _ _ _ (fun _ => trivial)
+            · split
+              · intro d; trivial
+              · split
+                · intro d; trivial
+                · split
+                  · intro d; trivial
+                  · split
+                    · intro d; trivial
+                    · intro d; trivial
+
+/-- the listing loop never runs out of fuel: every entry consumes at least 9 bytes of `it.size` -/
+theorem listGoP_fuel {f : File} {unc : Codec} (hc : CodecOK unc) (d : DirRd) :
+    ∀ (fuel : Nat) (it : Rd) (acc : List (Entry × Nat)) (S : Readers), (∀ k, Coherent f unc (S k)) → it.size < fuel →
+      (exec true f unc (listGoP d fuel it acc) S).1 ≠ .error loopFuelSt := by
+  intro fuel
+  induction fuel with
+  | zero => intro it acc S _ h; omega
+  | succ fuel ih =>
+    intro it acc S hS hlt
+    unfold listGoP
+    rw [exec_bind]
+    obtain ⟨hco, herr⟩ := exec_coherent_err hc (d.readP it) S hS
+    have hleaf := exec_leaves true f unc (fun r : RdRes × Rd => match r.1 with | .eof => True | .ent _ _ => r.2.size < it.size)
+      (d.readP it) S
+    cases hr : exec true f unc (d.readP it) S with
+    | mk r S' =>
+      rw [hr] at hco herr hleaf
+      cases r with
+      | error e =>
+        simp only
+        intro h
+        cases h
+        exact herr loopFuelSt (by decide) (readdirP_nofail 1 it) rfl
+      | ok v =>
+        simp only
+        have hv := hleaf v (readdirP_leaves 1 it) rfl
+        obtain ⟨res, it'⟩ := v
+        cases res with
+        | eof => simp only [exec]; intro h; cases h
+        | ent e iref =>
+          simp only at hv ⊢
+          exact ih it' _ S' hco (by omega)
+
+theorem findEntP_fuel {f : File} {unc : Codec} (hc : CodecOK unc) (d : DirRd) (path : Bytes) :
+    ∀ (fuel : Nat) (it : Rd) (S : Readers), (∀ k, Coherent f unc (S k)) → it.size < fuel →
+      (∀ k, Coherent f unc ((exec true f unc (findEntP d path fuel it) S).2 k)) ∧
+      (exec true f unc (findEntP d path fuel it) S).1 ≠ .error loopFuelSt ∧
+      ∀ r, (exec true f unc (findEntP d path fuel it) S).1 = .ok r → 1 ≤ r.2 := by
+  intro fuel
+  induction fuel with
+  | zero => intro it S _ h; omega
+  | succ fuel ih =>
+    intro it S hS hlt
+    unfold findEntP
+    rw [exec_bind]
+    obtain ⟨hco, herr⟩ := exec_coherent_err hc (d.readP it) S hS
+    have hleaf := exec_leaves true f unc (fun r : RdRes × Rd => match r.1 with | .eof => True | .ent _ _ => r.2.size < it.size)
+      (d.readP it) S
+    cases hr : exec true f unc (d.readP it) S with
+    | mk r S' =>
+      rw [hr] at hco herr hleaf
+      cases r with
+      | error e =>
+        simp only
+        refine ⟨hco, ?_, fun r h => by cases h⟩
+        intro h
+        cases h
+        exact herr loopFuelSt (by decide) (readdirP_nofail 1 it) rfl
+      | ok v =>
+        simp only
+        have hv := hleaf v (readdirP_leaves 1 it) rfl
+        obtain ⟨res, it'⟩ := v
+        cases res with
+        | eof =>
+          simp only [exec]
+          refine ⟨hco, ?_, ?_⟩
+          · intro h; cases h
+          · intro r h; cases h
+        | ent e iref =>
+          simp only at hv ⊢
+          split
+          · simp only [exec]
+            refine ⟨hco, ?_, ?_⟩
+            · intro h; cases h
+            · intro r h; cases h; simp
+          · exact ih it' S' hco (by omega)
+
+theorem dropSlashes_length (p : Bytes) : (dropSlashes p).length ≤ p.length := by
+  induction p with
+  | nil => simp [dropSlashes]
+  | cons a p ih =>
+    unfold dropSlashes
+    split
+    · rename_i r heq
+      cases heq
+      simp only [List.length_cons]
+      omega
+    · rename_i heq
+      simp
+
+/-- path resolution never runs out of fuel: every component consumes at least one byte of the path -/
+theorem resolveGoP_fuel {f : File} {unc : Codec} (hc : CodecOK unc) (d : DirRd) :
+    ∀ (fuel : Nat) (path : Bytes) (cur : Nat) (S : Readers), (∀ k, Coherent f unc (S k)) → path.length < fuel →
+      (exec true f unc (resolveGoP d fuel path cur) S).1 ≠ .error loopFuelSt := by
+  intro fuel
+  induction fuel with
+  | zero => intro path cur S _ h; omega
+  | succ fuel ih =>
+    intro path cur S hS hlt
+    unfold resolveGoP
+    simp only
+    have hdl := dropSlashes_length path
+    split
+    · simp only [exec]; intro h; cases h
+    · rename_i hne
+      rw [exec_bind]
+      obtain ⟨hco, herr⟩ := exec_coherent_err hc (d.getInodeP cur) S hS
+      cases hr : exec true f unc (d.getInodeP cur) S with
+      | mk r S' =>
+        rw [hr] at hco herr
+        cases r with
+        | error e =>
+          simp only
+          intro h
+          cases h
+          exact herr loopFuelSt (by decide) (readInodeP_nofail _ _ _ _ _ loopFuelSt (by decide) (by decide)) rfl
+        | ok ino =>
+          simp only
+          cases hod : d.openDir ino with
+          | error e =>
+            simp only [exec]
+            intro h
+            cases h
+            unfold DirRd.openDir at hod
+            split at hod
+            · cases hod
+            · split at hod
+              · cases hod
+              · cases hod
+          | ok it =>
+            simp only
+            rw [exec_bind]
+            obtain ⟨fco, ferr, fok⟩ := findEntP_fuel hc d (dropSlashes path) (it.size + 2) it S' hco (by omega)
+            cases hf : exec true f unc (findEntP d (dropSlashes path) (it.size + 2) it) S' with
+            | mk r2 S'' =>
+              rw [hf] at fco ferr fok
+              cases r2 with
+              | error e =>
+                simp only
+                intro h
+                cases h
+                exact ferr rfl
+              | ok v =>
+                simp only
+                have h1 := fok v rfl
+                apply ih _ _ S'' fco
+                have hpos : 0 < (dropSlashes path).length := by
+                  cases hp : dropSlashes path with
+                  | nil => rw [hp] at hne; simp at hne
+                  | cons a l => simp
+                simp only [List.length_drop]
+                omega
+
 end Sqfs.C10P
